@@ -26,6 +26,9 @@ func init() {
 
 func c08(r *Run) {
 	w := r.W
+	for _, st := range [][2]string{{"SetDeadline", "writeDeadline"}, {"SetWriteDeadline", "writeDeadline"}, {"SetWriteTimeout", "writeDeadline"}} {
+		r.setterStores("C08.R4:setter-records:"+st[0], "the deadline / timeout setters record what they are given on every path (SetWriteTimeout also clears a pending deadline): Flush can only time out at a deadline that was stored", "(*connection)."+st[0], st[1])
+	}
 	r.optionPlumbed("C08.R4:write-timeout-option-applied", "the write timeout configured on the event loop (WithWriteTimeout) is the value installed as the connection's write timeout: a Flush on a connection created by the loop times out as configured", "WithWriteTimeout", "(*connection).SetWriteTimeout")
 	ro := r.roles()
 	px := protoEffects(w)
